@@ -43,7 +43,11 @@ RULE = ("line lists from the adjacency product of 8 line classes {blank, whitesp
         ">= 2 lines or a non-blank line, or any leaf case")
 TRUSTED = ["models coq/Repro/Token.v and coq/Repro/Parse.v are hand transcriptions of tokenize_deb822_file and the "
            "grouping stages of parse_deb822_file (regex leaves match_field_line, is_ws_line); tied to the code only "
-           "by this correspondence (token kinds+texts, full element tree incl. slot occupancy, dump, strict-mode outcome)",
+           "by this correspondence (token kinds+texts, full element tree incl. slot occupancy, dump, strict-mode outcome) — "
+           "except the tokenizer: the control flow of tokenize_deb822_file is regenerated from the source on every run "
+           "(coq/Gen/TrTokenize.v) and proved equal to Token.tokenize on all inputs (coq/Props/C01Tie.v); hand-modelled "
+           "inside it: the two regex leaves, the token constructors (mk_token), the BufferingIterator operations and "
+           "_as_str (coq/Repro/TokTrPrims.v; source text asserted)",
            "generator laziness is collapsed: an exception raised while the token generator is consumed is the "
            "result of the whole call (all error kinds in this code are ValueError)"]
 ASSUMPTIONS = ["bytes input is valid UTF-8 (the tokenizer decodes each line; an undecodable line raises "
@@ -498,3 +502,113 @@ def describe(case, obs):
             "lines": lines, "input_form": form, "expected_text": exp,
             "observed_dump": obs.get("dump"), "observed_error": obs.get("tree_err") or obs.get("tokens_err"),
             "specified": "the call returns, dump() == expected_text and ''.join(token texts) == expected_text"}
+
+
+# ---------------------------------------------------------------------------
+# TIE BY REGENERATION: the control flow of tokenize_deb822_file is regenerated from lib/debian/_deb822_repro/tokens.py
+# into coq/Gen/TrTokenize.v on every run (harness/py2coq.py); coq/Repro/TokTie.v proves the regenerated function
+# equal to the model's `tokenize` (Repro/Token.v — what `agree` runs as py_tokenize and the theorems of Props/C01.v
+# are about) on ALL line lists, for all character classes; statements in coq/Props/C01Tie.v.
+#
+# The translated function has three leading (ghost) parameters: the character classes of the two compiled patterns
+# (`\s` of _RE_WHITESPACE_LINE/_RE_FIELD_LINE, the two classes of the field name), which the regex leaves take.
+# The text stream (BufferingIterator over _as_str(sequence)) is the list of the lines not yet consumed, as a shared
+# iterator: `for no, line in enumerate(text_stream, start=1)` and the two takewhile calls consume the same list.
+from harness import py2coq as _P   # noqa: E402
+
+TIE_FILE = "Props/C01Tie.v"
+
+_TOK = ("coq", "token")
+_FM = ("coq", "field_match")
+_IT = ("iter", "str")
+_STRS = ("list", "str")
+# the two predicates handed to text_stream.takewhile, asserted AS SOURCE TEXT (ast.unparse): a changed lambda
+# fails the translation closed
+_LAMBDA_UNTERMINATED = "lambda x: _RE_WHITESPACE_LINE.match(x) is not None and (not x.endswith('\\n'))"
+_LAMBDA_TERMINATED = "lambda x: _RE_WHITESPACE_LINE.match(x) is not None and x.endswith('\\n')"
+_LF = ("literal", "'\\n'", "tt")
+
+_F_TOKENIZE = _P.Fun(
+    "tr_tokenize_deb822_file", "tokenize_deb822_file", [("sequence", _STRS)], _TOK,
+    locals={"current_field_name": ("option", "str"), "field_name_cache": ("dict", "str", "str"),
+            "text_stream": _IT, "auto_correct_newlines": "bool", "first_line": ("option", "str"),
+            "no": "Z", "line": "str", "r": _STRS, "leading": "str", "emit_newline_token": "bool",
+            "field_line_match": ("option", _FM), "field_name": "str", "_": "str", "space_before": "str",
+            "value": ("option", "str"), "space_after": ("option", "str")},
+    fuel={1: "S (length text_stream)"}, generator=True,
+    ghost=[("is_space", ("coq", "(N -> bool)")), ("name_first", ("coq", "(N -> bool)")),
+           ("name_rest", ("coq", "(N -> bool)"))])
+# flow typing: current_field_name / value / space_after are Optional[str] and plain str where the code uses them as str
+_F_TOKENIZE.narrow = True
+# emit_newline_token is first assigned in both branches of `if line.endswith('\n'): … else: …` and read after it
+_F_TOKENIZE.join_defines = True
+
+
+def _tok_ctor(kind):
+    return _P.Call("trp_mk_token %s" % kind, ["str"], _TOK, True)
+
+
+TR_MODULE = _P.Module(
+    "TrTokenize", "lib/debian/_deb822_repro/tokens.py",
+    funs=[_F_TOKENIZE],
+    calls={
+        # the text stream
+        "_as_str": _P.Call("trp_as_str", [_STRS], _STRS),
+        "BufferingIterator": _P.Call("trp_buffering_iterator", [_STRS], _IT),
+        "<iter>.peek": _P.Call("trp_peek", [_IT], ("option", "str")),
+        "<iter>.peek_at": _P.Call("trp_peek_at", [_IT, ("literal", "2", "2%nat")], ("option", "str")),
+        "<iter>.takewhile": [
+            _P.Call("trp_takewhile", [_IT, ("literal", _LAMBDA_UNTERMINATED, "(trp_pred_ws_unterminated is_space)")],
+                    _STRS, mutates=True),
+            _P.Call("trp_takewhile", [_IT, ("literal", _LAMBDA_TERMINATED, "(trp_pred_ws_terminated is_space)")],
+                    _STRS, mutates=True)],
+        # str operations and regex leaves
+        "<str>.endswith": _P.Call("trp_endswith_lf", ["str", _LF], "bool"),
+        "''.join": _P.Call("trp_join_empty", [_STRS], "str"),
+        "str": _P.Call("trp_str_of_int", ["Z"], "str"),
+        "sys.intern": _P.Call("trp_intern", ["str"], "str"),
+        "_strI": _P.Call("trp_strI", ["str"], "str"),
+        "_RE_WHITESPACE_LINE.match": _P.Call("trp_ws_line_match is_space", ["str"], "bool"),
+        "_RE_FIELD_LINE.match": _P.Call("trp_field_line_match is_space name_first name_rest", ["str"], ("option", _FM)),
+        "<field_match>.groups": _P.Call("trp_groups", [_FM],
+                                        ("tuple", "str", "str", "str", ("option", "str"), ("option", "str"))),
+        "<dict>.get": _P.Call("tr_dict_get", [("dict", "str", "str"), "str"], ("option", "str")),
+        # token constructors: Deb822Token.__init__ + _verify_token_text of the class = the model's mk_token
+        "Deb822WhitespaceToken": _tok_ctor("KWhitespace"),
+        "Deb822CommentToken": _tok_ctor("KComment"),
+        "Deb822ErrorToken": _tok_ctor("KError"),
+        "Deb822ValueContinuationToken": _tok_ctor("KValueContinuation"),
+        "Deb822ValueToken": _tok_ctor("KValue"),
+        "Deb822FieldNameToken": _tok_ctor("KFieldName"),
+        "Deb822NewlineAfterValueToken": _P.Call("trp_newline_token", [], _TOK, True),
+        "Deb822FieldSeparatorToken": _P.Call("trp_field_separator_token", [], _TOK, True),
+    },
+    imports=["Repro.Token", "Repro.TokTrPrims"],
+    regexes=[("_RE_WHITESPACE_LINE", r'^\s+$')])
+
+# Code that the primitives stand for and that the translator does not see, asserted as source text (ast.unparse):
+# the nested helper _as_str (skipped by the translator: its name is a spec key) and the BufferingIterator methods
+# behind `for … in enumerate(text_stream)` / peek / peek_at / takewhile.  A change fails the translation closed.
+_AS_STR_SRC = ("def _as_str(s: Iterable[Union[str, bytes]]) -> Iterable[str]:\n    for x in s:\n"
+               "        if isinstance(x, bytes):\n            x = x.decode('utf-8')\n        yield x")
+_BUFITER_SHA = {"__init__": "5a2894660f0dab84", "__next__": "8fea135c984abb19", "takewhile": "4c27a68de4889396",
+                "_fill_buffer": "7c6211181fa233fd", "peek": "b4778e594397902d", "peek_at": "ee3c5dc62ec7b207"}
+
+
+@extract.register("TrTokenize")
+def _gen_tr(repo):
+    import hashlib
+    # _RE_FIELD_LINE: the shape of the pattern is compared with the modelled skeleton and the two name classes are
+    # regenerated (Gen/ReproChars.v) by the generator above — it raises ExtractError on any other shape
+    _gen_repro_chars(repo)
+    tree = extract._parse(repo, "lib/debian/_deb822_repro/tokens.py")
+    fn = _P.find_def(tree, "tokenize_deb822_file._as_str")
+    if ast.unparse(fn) != _AS_STR_SRC:
+        raise extract.ExtractError("tokenize_deb822_file._as_str is no longer the helper that trp_as_str stands for")
+    util = extract._parse(repo, "lib/debian/_deb822_repro/_util.py")
+    for meth, sha in _BUFITER_SHA.items():
+        got = hashlib.sha256(ast.unparse(_P.find_def(util, "BufferingIterator." + meth)).encode()).hexdigest()[:16]
+        if got != sha:
+            raise extract.ExtractError("BufferingIterator.%s changed: the text-stream primitives of "
+                                       "coq/Repro/TokTrPrims.v model the previous text" % meth)
+    return _P.translate_module(repo, TR_MODULE)
